@@ -37,7 +37,9 @@
 //   - procStatus is the only field accessed through sync/atomic, and it is never accessed otherwise;
 //   - NewInbox initialises procStatus with `stopped` and scheduler with NewScheduler(...);
 //     NewScheduler returns goscheduler(...); goscheduler.Schedule(fn) is exactly `go fn()`;
-//   - no other non-test file of package actor declares a method of Inbox;
+//   - no other non-test file of package actor declares a method of Inbox; the rest of the package drives an inbox
+//     only as <recv>.inbox.Send(..) anywhere, <recv>.inbox.Start(<recv>) from a method named Start, and
+//     <recv>.inbox.Stop() from a method named cleanup (the environment of InboxSrcSem.v);
 //   - no break / continue / goto / defer / labelled statement / select / switch / range / closure.
 //
 // usage: inboxtrans [-repo DIR] [-o FILE]     (DIR defaults to $VERIF_REPO, then /repo)
@@ -619,6 +621,54 @@ func (t *translator) checkFile(f *ast.File, dir string) {
 				t.refuse(f, "method %s of Inbox is declared in %s", fd.Name.Name, filepath.Base(o))
 			}
 		}
+		auditInboxCalls(t, f, of, filepath.Base(o))
+	}
+}
+
+// auditInboxCalls checks how the rest of package actor drives an inbox (<x>.inbox.M(...)) against
+// the environment InboxSrcSem.v fixes: Start is called by the process on itself from its own Start
+// method (process.Start: once per incarnation; a call made while the inbox runs is a no-op of the
+// CAS and is what the product model Actor.v covers), Stop only from the process's cleanup (the
+// inbox is closed once, for good, when the actor ends - never "while it is down for a restart"),
+// Send from anywhere.
+func auditInboxCalls(t *translator, f *ast.File, g *ast.File, fname string) {
+	for _, d := range g.Decls {
+		fd, ok := d.(*ast.FuncDecl)
+		if !ok || fd.Body == nil {
+			continue
+		}
+		recv := ""
+		if fd.Recv != nil && len(fd.Recv.List) == 1 && len(fd.Recv.List[0].Names) == 1 {
+			recv = fd.Recv.List[0].Names[0].Name
+		}
+		ast.Inspect(fd.Body, func(x ast.Node) bool {
+			c, ok := x.(*ast.CallExpr)
+			if !ok {
+				return true
+			}
+			sel, ok := c.Fun.(*ast.SelectorExpr)
+			if !ok {
+				return true
+			}
+			inner, ok := sel.X.(*ast.SelectorExpr)
+			if !ok || inner.Sel.Name != "inbox" {
+				return true
+			}
+			switch sel.Sel.Name {
+			case "Send":
+			case "Start":
+				if fd.Name.Name != "Start" || recv == "" || len(c.Args) != 1 || ident(c.Args[0]) != recv || ident(inner.X) != recv {
+					t.refuse(f, "%s:%s starts an inbox other than from the owning process's Start method", fname, fd.Name.Name)
+				}
+			case "Stop":
+				if fd.Name.Name != "cleanup" || recv == "" || ident(inner.X) != recv {
+					t.refuse(f, "%s:%s stops an inbox outside the owning process's cleanup (the environment of the model closes an inbox once, when the actor ends)", fname, fd.Name.Name)
+				}
+			default:
+				t.refuse(f, "%s:%s calls inbox.%s, which the environment of the model does not know", fname, fd.Name.Name, sel.Sel.Name)
+			}
+			return true
+		})
 	}
 }
 
